@@ -519,8 +519,8 @@ class Model(AbstractPriorModel):
         new_model: ModelMapper
             A new model mapper populated with Gaussian priors
         """
-        self.unfreeze()
         new_model = copy.deepcopy(self)
+        new_model.unfreeze()
 
         new_model._assertions = list()
 
